@@ -3,8 +3,8 @@
     are the tokens of the deterministic scheduler shim); proofs: C11/SemProofs.v, C11/BarMutexProofs.v,
     C11/BarSpinProofs.v.  [reachable] = exists an event list accepted from the initial state, i.e. the theorems
     quantify over ALL interleavings, any number of threads, any call lists / numbers of generations. *)
-From Coq Require Import List Arith Bool.
-From TLXV Require Import C11.Ev C11.Sem C11.SemProofs C11.SemCheckProofs C11.BarMutex C11.BarMutexProofs C11.BarSpin C11.BarSpinProofs.
+From Coq Require Import List Arith Bool NArith.
+From TLXV Require Import C11.Ev C11.Sem C11.SemProofs C11.SemCheckProofs C11.SemOverflow C11.BarMutex C11.BarMutexProofs C11.BarSpin C11.BarSpinProofs.
 Import ListNotations.
 
 (** ---------------------------------------------------------------- Semaphore *)
@@ -64,6 +64,24 @@ Theorem C11_sem_signal_shipped_refuted :
 Proof. exact signal_shipped_refuted. Qed.
 Print Assumptions C11_sem_signal_shipped_refuted.
 
+(** The model decides "blocked" by value < delta + slack on nat.  On 64-bit words the repaired C++ test
+    (value_ < delta || value_ - delta < slack, /repo ca9b7a2) is exactly that, for all size_t arguments ... *)
+Theorem C11_sem_threshold_test_correct : forall value delta slack,
+  (value < SemOverflow.W -> delta < SemOverflow.W -> slack < SemOverflow.W ->
+   blocked value delta slack = blocked_spec value delta slack)%N.
+Proof. exact blocked_correct. Qed.
+Print Assumptions C11_sem_threshold_test_correct.
+
+(** ... while the shipped test (value_ < delta + slack, sum formed in size_t) lets a caller through with
+    value 0, delta = 2^64 - 1, slack = 1, and value_ -= delta then leaves 1 token that was never signalled. *)
+Theorem C11_sem_threshold_test_shipped_refuted :
+  (exists value delta slack,
+    value < SemOverflow.W /\ delta < SemOverflow.W /\ slack < SemOverflow.W /\
+    blocked_spec value delta slack = true /\ blocked_shipped value delta slack = false /\
+    wrap (value + SemOverflow.W - delta) = 1)%N.
+Proof. exact blocked_shipped_refuted. Qed.
+Print Assumptions C11_sem_threshold_test_shipped_refuted.
+
 (** The direct trace checker run on every REAL trace (sem_check: recomputes the token count from the calls in
     the order of the unlock events and compares every returned value, wait threshold and try_acquire outcome)
     accepts every trace of the transition system: a negative verdict on a real trace means the real code
@@ -108,11 +126,21 @@ Proof. exact bm_action_by_last. Qed.
 Print Assumptions C11_bm_action_by_last.
 
 (** Reusable for any number K of generations: the only rest state is "everybody crossed K times". *)
-Theorem C11_bm_reusable : forall n sil K s t,
-  1 <= n -> breachable false n sil (repeat K n) s -> bquiescent false s -> t < n ->
+Theorem C11_bm_reusable : forall spur n sil K s t,
+  1 <= n -> breachable spur n sil (repeat K n) s -> bquiescent spur s -> t < n ->
   bpc (bthr s t) = BDone /\ gen (bthr s t) = K.
 Proof. exact bm_reusable. Qed.
 Print Assumptions C11_bm_reusable.
+
+(** No hypothesis on the numbers of crossings: a thread rests inside the barrier only in a generation that some
+    participant, having finished all of its own crossings, never enters (no lost wake-up, ever). *)
+Theorem C11_bm_rest_state : forall spur sil gens s t,
+  1 <= length gens -> breachable spur (length gens) sil gens s -> bquiescent spur s -> t < length gens ->
+  (bpc (bthr s t) = BDone /\ gen (bthr s t) = nth t gens 0) \/
+  (bpc (bthr s t) = BSleep /\ gen (bthr s t) < nth t gens 0 /\
+   exists u, u < length gens /\ bpc (bthr s u) = BDone /\ nth u gens 0 = gen (bthr s t)).
+Proof. exact bm_rest_state. Qed.
+Print Assumptions C11_bm_rest_state.
 
 (** ---------------------------------------------------------------- ThreadBarrierSpin (wait and wait_yield) *)
 
